@@ -113,13 +113,12 @@ impl<'a> Lexer<'a> {
     }
 
     fn number(&mut self, start: usize, c: char) -> TokenKind {
-        match self.s.peek() {
-            Some(c2) if !c2.is_ascii_digit() => match c {
+        if !matches!(self.s.peek(), Some(c2) if c2.is_ascii_digit()) {
+            match c {
                 '+' => return TokenKind::Plus,
                 '-' => return TokenKind::Minus,
                 _ => {}
-            },
-            _ => {}
+            }
         }
 
         let mut base = 10;
